@@ -136,6 +136,53 @@ impl Problem for Dissipative {
     }
 }
 
+/// The same problem on a time axis compressed by w (a power of two): y(t) = u(w t), y' = w f(w t, y). For a correct
+/// solver the run is the unscaled run with every time divided by w (all operations scale exactly), so the error measured
+/// in units of the tolerance has the same distribution; anything that mixes |y'| into a quantity that should depend on |y|
+/// (an error scale, a norm) shows as a factor w. w = 1 is the plain problem, bit for bit.
+pub struct Scaled {
+    pub inner: Composite,
+    pub w: f64,
+}
+impl Scaled {
+    pub fn y0(&self) -> Vec<f64> {
+        self.inner.y0()
+    }
+}
+impl Problem for Scaled {
+    fn dim(&self) -> usize {
+        self.inner.dim()
+    }
+    fn f(&self, t: f64, y: &[f64], dy: &mut [f64]) {
+        self.inner.f(self.w * t, y, dy);
+        if self.w != 1.0 {
+            for v in dy.iter_mut() {
+                *v *= self.w;
+            }
+        }
+    }
+    fn exact(&self, t: f64) -> Option<Vec<f64>> {
+        self.inner.exact(self.w * t)
+    }
+    fn jac_dense(&self, t: f64, y: &[f64]) -> Option<Vec<Vec<f64>>> {
+        self.inner.jac_dense(self.w * t, y).map(|mut j| {
+            if self.w != 1.0 {
+                for r in j.iter_mut() {
+                    for v in r.iter_mut() {
+                        *v *= self.w;
+                    }
+                }
+            }
+            j
+        })
+    }
+    fn describe(&self) -> serde_json::Value {
+        let mut d = self.inner.describe();
+        d["time_axis_compressed_by"] = json!(self.w);
+        d
+    }
+}
+
 fn err_ratio(y: &[f64], ex: &[f64], rtol: &Tol, atol: &Tol, denom_extra: f64) -> f64 {
     let mut r: f64 = 0.0;
     for j in 0..y.len() {
@@ -171,12 +218,16 @@ pub fn run(ctx: &Ctx) -> (Report, Meta) {
         let method = ADAPTIVE[i % 5];
         let m = mname(method);
         let dirn = rng.sign();
+        // one case in five lives on a time axis compressed by w = 2^4 .. 2^20 (x0 = 0 so that the scaling is exact)
+        let fast = (i / 40) % 5 == 4;
+        let wscale: f64 = if fast { (2.0f64).powi(4 + rng.below(17) as i32) } else { 1.0 };
         let x0 = match rng.below(4) {
             0 => 0.0,
             1 => rng.range(-2.0, 2.0),
             2 => rng.sign() * rng.range(3.0, 30.0),
             _ => 1.0,
         };
+        let x0 = if fast { 0.0 } else { x0 };
         let span = rng.logu(0.2, 12.0);
         let xend = x0 + dirn * span;
         let mode = (i / 5) % 8; // 0,1 scalar  2 vector  3 pure absolute  4 pure relative  5 scalar + t_eval  6 scalar rtol + vector atol  7 vector rtol + scalar atol
@@ -212,6 +263,8 @@ pub fn run(ctx: &Ctx) -> (Report, Meta) {
         } else {
             random_composite(&mut rng, x0, xend, 8, 30.0)
         };
+        let prob = Scaled { inner: prob, w: wscale };
+        let (x0, xend) = (x0 / wscale, xend / wscale);
         let nn = prob.dim();
         let lo_tol: f64 = match method {
             Method::RK23 => 1e-8,
@@ -304,12 +357,16 @@ pub fn run(ctx: &Ctx) -> (Report, Meta) {
         rep.count("samples_checked", sol.t.len() as u64);
         rep.worst(&format!("err_over_A_naccpt_tol_{}", m), worst);
         rep.worst(&format!("err_over_A_naccpt_tol_{}_{}", m, cls), worst);
-        rep.push(&format!("ratio_{}", m), worst);
+        rep.push(&format!("ratio_{}{}", if fast { "fast_" } else { "" }, m), worst);
+        if fast {
+            rep.count("runs_on_a_compressed_time_axis", 1);
+            rep.worst(&format!("err_over_A_naccpt_tol_{}_compressed_time_axis", m), worst);
+        }
         if !(worst <= km) {
             case["worst_ratio"] = json!(worst);
             case["naccpt"] = json!(sol.naccpt);
             rep.violate(
-                &format!("C01/error_bound/{}/{}_dim{}", m, cls, if nn == 1 { "1" } else if nn <= 3 { "2-3" } else { "4-8" }),
+                &format!("C01/error_bound/{}/{}{}_dim{}", m, cls, if fast { "_compressed_time_axis" } else { "" }, if nn == 1 { "1" } else if nn <= 3 { "2-3" } else { "4-8" }),
                 format!("a returned sample has error {:.1} x A x naccpt x (atol + rtol|y|) (A = {:.2}, naccpt = {}), allowed {}", worst, amp, sol.naccpt, km),
                 &case_id,
                 case,
@@ -580,8 +637,10 @@ pub fn run(ctx: &Ctx) -> (Report, Meta) {
                 }
             }
         }
-        for &m in ADAPTIVE.iter() {
-            let key = format!("ratio_{}", mname(m));
+        for (&m, fam) in ADAPTIVE.iter().flat_map(|m| [(m, ""), (m, "fast_")]) {
+            // the runs on a compressed time axis are the same runs up to an exact scaling: same limits, separate series
+            let key = format!("ratio_{}{}", fam, mname(m));
+            let mname = |m: Method| format!("{}{}", mname(m), if fam.is_empty() { "" } else { "_compressed_time_axis" });
             if let (Some(q90), Some(q50)) = (rep.quantile(&key, 0.9), rep.quantile(&key, 0.5)) {
                 if let Some(q99) = rep.quantile(&key, 0.99) {
                     rep.worst(&format!("ratio_q99_{}", mname(m)), q99);
